@@ -108,6 +108,69 @@ pub fn clocks_line(ln: &Value, rep: &mut Report, known: &Known) {
             chk(rep, &["C10"], "dot.eq", json!(d1 == d2), json!(ln["dotcmp"][a][b] == "EQ"));
         }
     }
+    // ---- the simple types' lattices on the same universe (C11, C02): states built through the op path, joined by merge ----
+    {
+        use crdts::{GCounter, GSet, MaxReg, MinReg, PNCounter};
+        use num::ToPrimitive;
+        let gc = |v: &[u64]| {
+            let mut g: GCounter<u8> = GCounter::new();
+            for (i, k) in v.iter().enumerate() {
+                if *k > 0 {
+                    g.apply(Dot::new((i + 1) as u8, *k));
+                }
+            }
+            g
+        };
+        let inner = |g: &GCounter<u8>| {
+            let mut z = false;
+            clock_arr(&to_tree(g), n, &mut z) // GCounter is #[serde(transparent)] over its clock
+        };
+        let mut g = gc(&cv);
+        g.merge(gc(&dv));
+        chk(rep, &["C11", "C02"], "gcounter.merge.read", json!(g.read().to_u64()), ln["gread"].clone());
+        chk(rep, &["C11", "C02"], "gcounter.merge.state", inner(&g), ln["join"].clone());
+        let mut g2 = gc(&dv);
+        g2.merge(gc(&cv));
+        chk(rep, &["C02"], "gcounter.merge.comm", json!(inner(&g2) == inner(&g)), json!(true));
+        let pn = |p: &[u64], m: &[u64]| {
+            let mut x: PNCounter<u8> = PNCounter::new();
+            for (i, k) in p.iter().enumerate() {
+                if *k > 0 {
+                    x.apply(crdts::pncounter::Op { dot: Dot::new((i + 1) as u8, *k), dir: crdts::pncounter::Dir::Pos });
+                }
+            }
+            for (i, k) in m.iter().enumerate() {
+                if *k > 0 {
+                    x.apply(crdts::pncounter::Op { dot: Dot::new((i + 1) as u8, *k), dir: crdts::pncounter::Dir::Neg });
+                }
+            }
+            x
+        };
+        let zero = vec![0u64; n];
+        let mut x = pn(&cv, &zero);
+        x.merge(pn(&dv, &cv));
+        chk(rep, &["C11", "C02"], "pncounter.merge.read", json!(x.read().to_i64()), ln["pnread"].clone());
+        let gs = |v: &[u64]| {
+            let mut s: GSet<u8> = GSet::new();
+            for (i, k) in v.iter().enumerate() {
+                if *k > 0 {
+                    s.insert((i + 1) as u8);
+                }
+            }
+            s
+        };
+        let mut s1 = gs(&cv);
+        s1.merge(gs(&dv));
+        let support: Vec<u64> = (1..=n).map(|a| if s1.contains(&(a as u8)) { 1 } else { 0 }).collect();
+        chk(rep, &["C11", "C02"], "gset.merge", json!(support), ln["gset"].clone());
+        chk(rep, &["C11"], "gset.merge.read", json!(s1.read().len()), json!(arr(&ln["gset"]).iter().filter(|x| **x > 0).count()));
+        let mut mx = MaxReg { val: cv[0] };
+        mx.merge(MaxReg { val: dv[0] });
+        chk(rep, &["C11", "C02"], "maxreg.merge", json!(mx.val), ln["maxv"].clone());
+        let mut mn = MinReg { val: cv[0] };
+        mn.merge(MinReg { val: dv[0] });
+        chk(rep, &["C11", "C02"], "minreg.merge", json!(mn.val), ln["minv"].clone());
+    }
     if cv.iter().filter(|x| **x > 0).count() >= 2 && dv.iter().filter(|x| **x > 0).count() >= 2 {
         rep.nontriv("both_clocks_have_two_actors");
     }
